@@ -130,6 +130,25 @@ def cleanedToken (s : String) : String := String.ofList (cleanedTokenL s.toList)
 def wordsX (s : List Char) : List (List Char) := (splitP isXs s).filter (· ≠ [])
 def collapseX (s : List Char) : List Char := joinSp (wordsX s)
 
+/-! ### xs:date: the day-of-month constraint (what the lexical pattern cannot say) -/
+def digitsVal (l : List Char) : Nat := l.foldl (fun a c => 10 * a + (c.toNat - 48)) 0
+
+/-- year, month, day of a string that matches the xs:date expression `-?Y+-MM-DD(zone)?` -/
+def dateParts (s : List Char) : Int × Nat × Nat :=
+  let neg := s.head? == some '-'
+  let s1 := if neg then s.drop 1 else s
+  let y := s1.takeWhile Char.isDigit
+  let r := (s1.dropWhile Char.isDigit).drop 1
+  ((if neg then -(digitsVal y : Int) else (digitsVal y : Int)), digitsVal (r.take 2), digitsVal ((r.drop 3).take 2))
+
+def daysInMonth (y : Int) (m : Nat) : Nat :=
+  if m == 2 then (if y % 4 == 0 && (y % 100 != 0 || y % 400 == 0) then 29 else 28)
+  else if m == 4 || m == 6 || m == 9 || m == 11 then 30 else 31
+
+/-- `XSDSimpleTypeDate._check_value`, second half: the day exists in that month of that (proleptic Gregorian) year -/
+def dateDayOk (s : List Char) : Bool :=
+  (dateParts s).2.2 ≤ daysInMonth (dateParts s).1 (dateParts s).2.1
+
 /-! ### the validator -/
 abbrev Patterns := List (Nat × RE Char)
 
@@ -215,7 +234,7 @@ def validate (env : Env) : Nat → SimpleDef → PyVal → Res
                 let pre : Res × String :=
                   if d.base == 2 then
                     (match env.datePat with
-                      | some dp => (if fullmatch dp s then .ok else .valueError, s)
+                      | some dp => (if fullmatch dp s && dateDayOk s.toList then .ok else .valueError, s)
                       | Option.none => (.ok, s))
                   else if d.base == 1 then (.ok, cleanedToken s)
                   else if d.base == 3 then
@@ -225,7 +244,11 @@ def validate (env : Env) : Nat → SimpleDef → PyVal → Res
                   else (.ok, s)
                 if pre.1 != .ok then pre.1
                 else (match lookupPat pi env.pats with
-                  | some r => if fullmatch r pre.2 then .ok else .valueError
+                  | some r =>
+                    if fullmatch r pre.2 then
+                      -- XSDSimpleTypeDate itself: the day-of-month check after the pattern
+                      (if d.key == env.dateKey && !dateDayOk pre.2.toList then .valueError else .ok)
+                    else .valueError
                   | Option.none => .ok)
               | _ => .typeError)
           | Option.none => facetCheck v d.facets
